@@ -180,6 +180,9 @@ def make_op(rng, tasks, wbss, facades, mode='mixed', former=None):
         if isinstance(fp, Task):
             cand.append(Op(f'{tn(t2)}.parent = {tn(fp)}  [its former parent]', lambda: setattr(t2, 'parent', fp), [t2, fp], ('set-parent', t2, fp)))
             cand.append(Op(f'{tn(fp)}.children.append({tn(t2)})  [its former child]', lambda: fp.children.append(t2), [fp, t2], ('append-child', fp, t2)))
+            if not isin(t2, fp._Task__children):
+                # the id of a task that left the tree is free again: taking it, then bringing the task back, must be refused (C05)
+                cand.append(Op(f'Task({t2.id!r}, parent={tn(fp)})  [re-uses the id of the former child {tn(t2)}]', lambda: Task(t2.id, parent=fp), [], ('construct',)))
     for owner in [t, w]:
         kids = list(R(owner)._Task__children)
         withkids = [k for k in kids if k._Task__children]
@@ -429,6 +432,7 @@ def walk(seed, index, props, steps=12, n=None, verbose=False):
             found.append(('C01 task is its own ancestor', 'oracle recursion'))
         if outcome == 'ok' and not found and 'C16' in props and op.effect[0] != 'construct':
             found += check_effect(op, before, after, ret, allt)
+        other = [f for f in found if f[0][:3] not in props]
         found = [f for f in found if f[0][:3] in props]
         if found:
             kind = op.effect[0]
@@ -439,8 +443,8 @@ def walk(seed, index, props, steps=12, n=None, verbose=False):
             for c, d in found:
                 if c not in seen: viol.append((c, d + ' | after ' + op.name + ' -> ' + outcome)); seen.add(c)
             break
-        bad_any = check_inv(tasks, wbss)
-        if bad_any: break                        # state corrupted w.r.t. another property: start a new walk
+        if any(c.startswith('C15') for c, _ in other): break       # a rejected call left a half-made change (another property's finding): start a new walk
+        # a state that breaks only ANOTHER property is still a state of the real objects: the walk goes on, and what it shows about `props` counts
         if rng.random() < (.5 if mode == 'hierarchy' else .25):
             o = rng.choice(tasks + wbss)
             facades.append(((o.roots if isinstance(o, WBS) else o.children), o))
